@@ -27,7 +27,7 @@ sys.path.insert(0, os.path.join(VERIF, "harness"))
 import kdrive  # noqa: E402
 import registry  # noqa: E402
 
-REPO = "/repo"
+REPO = os.environ.get("VERIF_REPO", "/repo")  # developer override: a clean worktree while /repo is busy
 WORK = os.environ.get("VERIF_WORK", "/var/tmp/verif-kani")
 UF_C = os.path.join(VERIF, "harness", "common", "uf.c")
 MEM_C = os.path.join(VERIF, "harness", "common", "memshim.c")
@@ -345,7 +345,7 @@ def run_harness(name, th, tier, use_memo=True):
 # counterexample extraction and native replay
 # ------------------------------------------------------------------------------------------------
 
-def extract_values(work_out, prop, unwind, uws, default_checks, timeout=1800, mem_gb=16):
+def extract_values(work_out, prop, unwind, uws, default_checks, timeout=1800, mem_gb=24):
     """re-run CBMC for the single failing property with --trace --json-ui; return the kani::any() values"""
     # no --slice-formula here: slicing drops the nondet assignments outside the property's cone of influence from the
     # trace, and the native replay needs *every* kani::any() value in execution order
@@ -439,15 +439,14 @@ def triage_failure(name, res, th, prop_id):
         return [{"kind": "inconclusive", "why": "replay binary does not build: " + err[-400:]}]
     project = spec.get("project", "incrate")
     patterns = list(registry.DEFAULT_LOOPS) + list(spec.get("loops", []))
-    if project == "incrate":
-        # counterexamples are extracted from the table-hash build of the same harness (replayable values)
-        project = "incrate-table"
+    # The harness' inputs are read from a trace of the *same* binary that failed (uninterpreted hash); natively the
+    # harness then runs on those inputs with a fixed well-mixing hash (model.rs `mix`, cfg(not(kani))).
     metas, _, err = project_metas(project, th, [spec["path"]])
     if metas is None:
-        return [{"kind": "inconclusive", "why": "table-mode build failed: " + err[-400:]}]
+        return [{"kind": "inconclusive", "why": "harness build failed: " + err[-400:]}]
     meta = find_meta(metas, spec["path"])
     if meta is None:
-        return [{"kind": "inconclusive", "why": "harness missing in table-mode build"}]
+        return [{"kind": "inconclusive", "why": "harness missing in build"}]
     tdir = os.path.join(WORK, "run", "triage-" + hashlib.sha256((th + name).encode()).hexdigest()[:16])
     os.makedirs(tdir, exist_ok=True)
     work_out = os.path.join(tdir, "h.out")
@@ -504,6 +503,10 @@ def check_property(pid, tier, jobs):
     t0 = time.time()
     pspec = registry.PROPERTIES[pid]
     names = list(pspec["quick"]) + (list(pspec.get("thorough", [])) if tier == "thorough" else [])
+    skipped_stretch = []
+    if os.environ.get("VERIF_SKIP_STRETCH"):
+        skipped_stretch = [n for n in names if registry.HARNESSES[n].get("stretch")]
+        names = [n for n in names if n not in skipped_stretch]
     seed = int(os.environ.get("VERIF_SEED", "0") or 0)
     # the seed only permutes the order in which obligations are scheduled
     if seed:
